@@ -1,4 +1,6 @@
-(* Proofs/NamesProofs.v -- lemmas for C04 (Model/Names.v against Spec/PyImport.v). *)
+(* Proofs/NamesProofs.v -- lemmas for C04, part 1: relative-import arithmetic; soundness of expandName for every
+   state that satisfies the registry / alias-map invariants (Layer A).  Part 2 (the visitor establishes those
+   invariants) is Proofs/NamesInvProofs.v. *)
 From Coq Require Import NArith List Bool Arith Lia.
 From PydoctorVerif Require Import Base.ImportSyntax Model.Names Spec.PyImport.
 Import ListNotations.
@@ -63,3 +65,274 @@ Proof.
       destruct (Nat.ltb_spec (S l) (length mpath)); destruct (Nat.ltb_spec (length mpath - 1) (S l)); try lia; try reflexivity.
       rewrite firstn_firstn. do 3 f_equal. lia.
 Qed.
+Lemma path_eqb_eq : forall a b : path, path_eqb a b = true <-> a = b.
+Proof.
+  induction a as [|x a IH]; destruct b as [|y b]; cbn; split; intro H; try reflexivity; try discriminate.
+  - apply andb_true_iff in H. destruct H as [H1 H2]. apply N.eqb_eq in H1. apply IH in H2. congruence.
+  - inversion H; subst. apply andb_true_iff. split; [apply N.eqb_refl | apply IH; reflexivity].
+Qed.
+
+Lemma path_eqb_refl : forall a, path_eqb a a = true.
+Proof. intro a. apply path_eqb_eq. reflexivity. Qed.
+
+Lemma obj_for_some : forall st q o, obj_for st q = Some o -> In o (objs st) /\ o_path o = q.
+Proof.
+  unfold obj_for. intros st q o H. apply find_some in H. destruct H as [H1 H2].
+  split; [exact H1 | apply path_eqb_eq; exact H2].
+Qed.
+
+Definition flat (v : value) : path := match v with VMod m => m | VObj m q => m ++ q end.
+Definition is_modv (v : value) : bool := match v with VMod _ => true | VObj _ _ => false end.
+Definition denotes (o : obj) (v : value) : Prop := o_id o = flat v /\ is_modkind (o_kind o) = is_modv v.
+Definition scope_val (m qual : path) : value := match qual with [] => VMod m | _ => VObj m qual end.
+
+Definition is_some {A} (o : option A) : bool := match o with Some _ => true | None => false end.
+
+(* the part of expandName's walk that C04 vouches for: the first part is bound in the context itself, and no
+   later part is found by falling back from a class to its enclosing scope (see the _refuted theorems) *)
+Fixpoint trail_ok (st : state) (o : obj) (first : bool) (parts : list name) : bool :=
+  match parts with
+  | [] => true
+  | p :: rest =>
+    let fn := l2f st o p in
+    let own := is_some (child st o p) || is_some (assoc p (o_amap o)) in
+    let fm := find_for st o p in
+    let here :=
+      if first then own
+      else match o_kind o with
+           | KClass => if own then negb (path_eqb fn [p]) || negb (is_some fm) else path_eqb fn [p]
+           | _ => true
+           end in
+    let notfound := path_eqb fn [p] && negb first in
+    let fn1 := if notfound then match fm with Some inh => o_path inh | None => fn end else fn in
+    here &&
+    (if notfound && path_eqb fn1 [p] then true
+     else match rest with
+          | [] => true
+          | _ => match obj_for st fn1 with
+                 | None => true
+                 | Some nxt => trail_ok st nxt false rest
+                 end
+          end)
+  end.
+
+Section Sound.
+  Variable P : project.
+  Variable st : state.
+
+  Record coherent : Prop := {
+    (* the registry is sound: an object registered under a full name IS what that name denotes in Python *)
+    C_reg : forall o v, In o (objs st) -> py_abs P (o_path o) v -> denotes o v;
+    (* every alias-map entry n |-> q of a namespace object: q, read as an absolute Python expression, has the
+       value of attribute n of that namespace *)
+    C_amap : forall o n q vo v', In o (objs st) -> assoc n (o_amap o) = Some q ->
+               py_abs P (o_path o) vo -> py_attr P vo n v' -> py_abs P q v';
+    (* names pydoctor knows in a class namespace are bound by the class body itself *)
+    C_own : forall o m qual body n, In o (objs st) -> py_abs P (o_path o) (VObj m qual) ->
+               is_some (child st o n) || is_some (assoc n (o_amap o)) = true ->
+               scope_body P m qual = Some body -> binder_of body n <> None;
+    (* Class.find: a member found in a base class is the inherited attribute *)
+    C_find : forall c n inh vo v', In c (objs st) ->
+               child st c n = None -> assoc n (o_amap c) = None ->
+               find_for st c n = Some inh ->
+               py_abs P (o_path c) vo -> py_attr P vo n v' -> py_abs P (o_path inh) v'
+  }.
+
+  Lemma py_attrs_app : forall v r1 v1 r2 v2,
+    py_attrs P v r1 v1 -> py_attrs P v1 r2 v2 -> py_attrs P v (r1 ++ r2) v2.
+  Proof.
+    intros v r1. revert v. induction r1 as [|n r1 IH]; intros v v1 r2 v2 H1 H2.
+    - inversion H1; subst. exact H2.
+    - inversion H1; subst. cbn. econstructor; [eassumption|]. eapply IH; eassumption.
+  Qed.
+
+  Lemma py_abs_app : forall q vo rest v,
+    py_abs P q vo -> py_attrs P vo rest v -> py_abs P (q ++ rest) v.
+  Proof.
+    intros q vo rest v Hq Hr. destruct q as [|a q]; [destruct Hq|].
+    destruct Hq as [Hm Ha]. cbn. split; [exact Hm|]. eapply py_attrs_app; eassumption.
+  Qed.
+
+  Lemma py_abs_snoc : forall q vo p v', py_abs P q vo -> py_attr P vo p v' -> py_abs P (q ++ [p]) v'.
+  Proof.
+    intros. eapply py_abs_app; [eassumption|]. econstructor; [eassumption|constructor].
+  Qed.
+
+  (* the Python step for one part: LOAD_NAME for the first part, getattr afterwards *)
+  Definition pstep (first : bool) (vo : value) (p : name) (v' : value) : Prop :=
+    if first then exists m qual, vo = scope_val m qual /\ py_name P m qual p v'
+    else py_attr P vo p v'.
+
+  Hypothesis Hc : coherent.
+
+  (* a name found in the context itself is an attribute of the context value *)
+  Lemma first_step_attr : forall o vo p v',
+    In o (objs st) -> py_abs P (o_path o) vo -> pstep true vo p v' ->
+    is_some (child st o p) || is_some (assoc p (o_amap o)) = true ->
+    py_attr P vo p v'.
+  Proof.
+    intros o vo p v' Hin Hden [m [qual [Hvo Hn]]] Hown. subst vo.
+    destruct qual as [|c qual].
+    - cbn in *. inversion Hn; subst.
+      + constructor. assumption.
+      + congruence.
+    - cbn [scope_val] in *. inversion Hn; subst.
+      + apply pa_own; [discriminate | assumption].
+      + exfalso. eapply (C_own Hc); eauto.
+  Qed.
+
+
+  Lemma l2f_unfold : forall o n,
+    l2f st o n =
+    match child st o n with
+    | Some c => o_path c
+    | None => match assoc n (o_amap o) with
+              | Some q => q
+              | None => match o_kind o with
+                        | KClass => match length (o_path o) with
+                                    | O => [n]
+                                    | S f => match parent_of st o with
+                                             | Some p => local_to_full f st p n
+                                             | None => [n]
+                                             end
+                                    end
+                        | _ => [n]
+                        end
+              end
+    end.
+  Proof. intros o n. unfold l2f. destruct (length (o_path o)); reflexivity. Qed.
+
+  Lemma child_path : forall o p c, child st o p = Some c -> In c (objs st) /\ o_path c = o_path o ++ [p].
+  Proof. intros o p c H. unfold child in H. apply obj_for_some in H. exact H. Qed.
+
+  Lemma snoc_not_single : forall (q : path) p, q <> [] -> path_eqb (q ++ [p]) [p] = false.
+  Proof.
+    intros q p Hq. destruct (path_eqb (q ++ [p]) [p]) eqn:E; [|reflexivity].
+    apply path_eqb_eq in E. apply (f_equal (@length _)) in E. rewrite app_length in E. cbn in E.
+    destruct q; [congruence | cbn in E; lia].
+  Qed.
+
+  Lemma py_abs_nonempty : forall q v, py_abs P q v -> q <> [].
+  Proof. intros q v H. destruct q; [destruct H | discriminate]. Qed.
+
+  (* what happens after the name of one part has been computed *)
+  Definition continue_ (fn1 : path) (rest : list name) : path :=
+    match rest with
+    | [] => fn1
+    | _ => match obj_for st fn1 with
+           | None => fn1 ++ rest
+           | Some nxt => expand_from st nxt false rest
+           end
+    end.
+  Definition continue_ok (fn1 : path) (rest : list name) : bool :=
+    match rest with
+    | [] => true
+    | _ => match obj_for st fn1 with
+           | None => true
+           | Some nxt => trail_ok st nxt false rest
+           end
+    end.
+
+  Lemma expand_from_sound : forall parts o first vo v,
+    In o (objs st) -> py_abs P (o_path o) vo ->
+    (match parts with
+     | [] => False
+     | p :: rest => exists v', pstep first vo p v' /\ py_attrs P v' rest v
+     end) ->
+    trail_ok st o first parts = true ->
+    py_abs P (expand_from st o first parts) v.
+  Proof.
+    induction parts as [|p rest IH]; intros o first vo v Hin Habs Hpy Hok; [destruct Hpy|].
+    destruct Hpy as [v' [Hstep Hrest]].
+    assert (Hne : o_path o <> []) by (eapply py_abs_nonempty; eassumption).
+    (* the continuation is sound for any sound name of this part *)
+    assert (Hcont : forall fn1, py_abs P fn1 v' -> continue_ok fn1 rest = true ->
+                                py_abs P (continue_ fn1 rest) v).
+    { intros fn1 Hfn1 Hk. unfold continue_, continue_ok in *.
+      destruct rest as [|r rest'].
+      - inversion Hrest; subst. exact Hfn1.
+      - destruct (obj_for st fn1) as [nxt|] eqn:En.
+        + apply obj_for_some in En. destruct En as [Hinn Hpn].
+          eapply IH; [exact Hinn | rewrite Hpn; exact Hfn1 | | exact Hk].
+          inversion Hrest; subst. eexists. split; [cbn; eassumption | eassumption].
+        + eapply py_abs_app; eassumption. }
+    (* the break is always sound *)
+    assert (Hbreak : py_attr P vo p v' -> py_abs P ((o_path o ++ [p]) ++ rest) v).
+    { intro Ha. eapply py_abs_app; [eapply py_abs_snoc; eassumption | exact Hrest]. }
+    cbn [trail_ok] in Hok. cbn [expand_from].
+    fold (continue_ok) in Hok.
+    rewrite (l2f_unfold o p) in *.
+    apply andb_true_iff in Hok. destruct Hok as [Hhere Hk].
+    destruct (child st o p) as [c|] eqn:Ech.
+    - (* the name is in the contents of the object *)
+      assert (Hattr : py_attr P vo p v').
+      { destruct first; [|exact Hstep]. eapply first_step_attr; eauto. rewrite Ech. reflexivity. }
+      destruct (child_path _ _ _ Ech) as [_ Hpc].
+      rewrite Hpc in *. rewrite (snoc_not_single _ p Hne) in *. cbn [andb] in *.
+      apply Hcont; [eapply py_abs_snoc; eassumption | exact Hk].
+    - destruct (assoc p (o_amap o)) as [q|] eqn:Eas.
+      + (* the name is in the alias map of the object *)
+        assert (Hattr : py_attr P vo p v').
+        { destruct first; [|exact Hstep]. eapply first_step_attr; eauto. rewrite Ech, Eas. reflexivity. }
+        assert (Hq : py_abs P q v') by (eapply (C_amap Hc); eassumption).
+        cbn [is_some orb] in Hhere.
+        destruct (path_eqb q [p] && negb first) eqn:Enf.
+        * apply andb_true_iff in Enf. destruct Enf as [Eq Ef]. destruct first; [discriminate|].
+          assert (Efm : find_for st o p = None).
+          { unfold find_for in *. destruct (o_kind o); try reflexivity.
+            rewrite Eq in Hhere. cbn in Hhere. destruct (find_member _ st o p); [discriminate|reflexivity]. }
+          rewrite Efm in *. rewrite Eq in *. cbn [andb] in *. apply Hbreak. exact Hattr.
+        * cbn [andb] in *. apply Hcont; assumption.
+      + (* not found in the object itself *)
+        cbn [is_some orb] in Hhere.
+        destruct first; [discriminate|]. cbn [negb andb] in *. rewrite andb_true_r in *.
+        cbn [pstep] in Hstep.
+        destruct (find_for st o p) as [inh|] eqn:Efm.
+        * assert (Hk' : o_kind o = KClass).
+          { unfold find_for in Efm. destruct (o_kind o); try discriminate. reflexivity. }
+          rewrite Hk' in *. rewrite Hhere in *.
+          assert (Hinh : py_abs P (o_path inh) v') by (eapply (C_find Hc); eassumption).
+          destruct (path_eqb (o_path inh) [p]) eqn:Ei.
+          -- apply Hbreak. exact Hstep.
+          -- apply Hcont; assumption.
+        * assert (Efn : path_eqb
+                   match o_kind o with
+                   | KClass => match length (o_path o) with
+                               | 0 => [p]
+                               | S f => match parent_of st o with
+                                        | Some p0 => local_to_full f st p0 p
+                                        | None => [p]
+                                        end
+                               end
+                   | _ => [p]
+                   end [p] = true).
+          { destruct (o_kind o); try apply path_eqb_refl. exact Hhere. }
+          rewrite Efn in *. rewrite Efn. apply Hbreak. exact Hstep.
+  Qed.
+
+  (* expandName: the dotted name it returns, read as a Python expression over sys.modules, has the value
+     Python gives the original name in the context *)
+  Theorem expand_sound : forall ctx m qual dotted v,
+    In ctx (objs st) -> py_abs P (o_path ctx) (scope_val m qual) ->
+    py_lookup P m qual dotted v ->
+    trail_ok st ctx true dotted = true ->
+    py_abs P (expand_name st ctx dotted) v.
+  Proof.
+    intros ctx m qual dotted v Hin Habs Hpy Hok. unfold expand_name.
+    eapply expand_from_sound; try eassumption.
+    unfold py_lookup in Hpy. inversion Hpy; subst.
+    eexists. split; [|eassumption]. cbn. exists m, qual. split; [reflexivity|assumption].
+  Qed.
+
+  Theorem resolve_sound : forall ctx m qual dotted v o,
+    In ctx (objs st) -> py_abs P (o_path ctx) (scope_val m qual) ->
+    py_lookup P m qual dotted v ->
+    trail_ok st ctx true dotted = true ->
+    resolve_name st ctx dotted = Some o ->
+    denotes o v.
+  Proof.
+    intros ctx m qual dotted v o Hin Habs Hpy Hok Hres. unfold resolve_name in Hres.
+    apply obj_for_some in Hres. destruct Hres as [Hino Hpo].
+    eapply (C_reg Hc); [exact Hino|]. rewrite Hpo. eapply expand_sound; eassumption.
+  Qed.
+End Sound.
